@@ -543,8 +543,8 @@ def check_snr_presentations(chk, lab, m, spec, kappa_of):
 
 def obj_digest(m):
     out = [type(m).__name__]
-    for k in sorted(vars(m)):
-        v = vars(m)[k]
+    for k in sorted(bfs.state_of(m)):
+        v = bfs.state_of(m)[k]
         if isinstance(v, np.ndarray):
             out.append((k, str(v.dtype), v.shape, v.tobytes()))
         else:
